@@ -48,7 +48,9 @@ pub fn generate(g: &mut G, index: u64) -> Scenario {
     // a sixth of the programs talk to stream-attached actors (incl. saturated streams): their
     // calls, pings, halts and awaits must resolve just the same
     if g.chance(1, 6) {
-        return super::c13::generate(g, index);
+        let mut sc = super::c13::generate(g, index);
+        sc.profile = "C13".to_string(); // (oracles applied across profiles go by this tag)
+        return sc;
     }
     let cause = g.pick(&CAUSES);
     let owning = g.chance(1, 2);
